@@ -64,13 +64,23 @@ def default(rule, key, diff, **_):
         yield (False, rule["reverse"].format(*key), None)
 
 
+def _forget_removed(pre):
+    for rule_pre in pre.values():
+        for item in rule_pre["items"].values():
+            item[Op.REMOVED] = []
+            for op in (Op.ADDED, Op.MOVED, Op.AFFECTED, Op.UNCHANGED):
+                for entry in item[op]:
+                    _forget_removed(entry["children"])
+
+
 def ordered(rule, key, diff, **kwargs):
     if diff[Op.MOVED]:
         # Сносим top-level блок
         yield (False, rule["reverse"].format(*key), None)
+        # блок уже очищен и пересоздается заново: удалять в нём нечего
+        for entry in diff[Op.MOVED]:
+            _forget_removed(entry["children"])
     # Дальше Op.MOVED будут пересозданы заново в новом порядке
-    # FIXME вообще-то следовало бы удалять REMOVED из чайлдов
-    # поскольку блок уже очищен и пересоздается заново
     yield from default(rule, key, diff, **kwargs)
 
 
